@@ -10,6 +10,7 @@ import NiftyVerif.Lemmas.CgReInv
 import NiftyVerif.Lemmas.CgReDescent
 import Mathlib.Tactic.NormNum
 import NiftyVerif.Lemmas.RVec
+import NiftyVerif.Lemmas.CgReSqrt
 
 namespace NiftyVerif.C15
 set_option linter.unusedSectionVars false
@@ -167,6 +168,13 @@ theorem first_step_steepest_descent (hip : SymmBilin ip) (hm : Linear (K := K) m
   have := static_sim c ip nrm mat j x0 (Or.inl hmax)
   rw [h1] at this
   exact this
+
+/-- **The sqrt-free comparisons of the model are exact over ℝ**: `‖r‖₂ < ρ ⇔ 0 < ρ ∧ ⟨r,r⟩ < ρ²`, and for the residual bound
+    `_newton_cg` derives, `n < min(1/2, √m)·m ⇔ 0 < m ∧ 2n < m ∧ n² < m³` (`n = ‖r‖ ≥ 0`). -/
+theorem normLt_encodings_exact :
+    (∀ g rho : ℝ, 0 ≤ g → (Real.sqrt g < rho ↔ (0 < rho ∧ g < rho * rho)))
+    ∧ (∀ n m : ℝ, 0 ≤ n → (n < min (1 / 2) (Real.sqrt m) * m ↔ (0 < m ∧ (1 + 1) * n < m ∧ n * n < m * m * m))) :=
+  ⟨norm_two_encoding, resnorm_sqrt_encoding⟩
 
 /-! ### Non-vacuity: a concrete lawful instance (K = V = ℚ, ip = multiplication, A = multiplication by a) -/
 
